@@ -4,6 +4,7 @@
                                   sched = string of thread digits
      explore K <depth> <clients>  bounded search for a failing schedule
      judge K <clients> <sched>    per-step judgement of one schedule
+     wb K <clients> <sched>       are the clients well-bracketed along this schedule (Spinlock theorems' hypothesis)
      reg P|D|G <ops>               Identifiable/DefaultSettable history: c<slot> d<slot> g<n> s<slot> q *)
 let the_prog = if Array.length Sys.argv > 1 && Sys.argv.(1) = "gen" then M.gen_prog else M.reviewed_prog
 
@@ -75,6 +76,17 @@ let do_run k clients sched =
     (String.concat "," (List.map (fun (ts : M.tstate) -> string_of_n ts.M.depth) s.M.thr)));
   Buffer.contents buf
 
+(* does every step of the schedule satisfy the well-bracketedness condition of the Spinlock theorems? *)
+let do_wb k clients sched =
+  let p = the_prog in
+  let m = ref (M.minit p k clients) in
+  let ok = ref true in
+  List.iter (fun ti ->
+    let t = nat_of_int ti in
+    if not (M.wb_ok k (fst !m) t) then ok := false;
+    (match M.adv p k t !m with Some (m2, _) -> m := m2 | None -> ())) sched;
+  if !ok then "wb" else "not-wb"
+
 let reason_str = function
   | M.BadMutex -> "mutex" | M.BadRace -> "race" | M.BadWrap -> "wrap" | M.BadQuiescent -> "quiescent"
   | M.BadOwnerTryFails -> "owner-try-fails" | M.BadStuck -> "stuck" | M.BadSideEffect -> "side-effect"
@@ -101,6 +113,7 @@ let () = iter_lines (fun line ->
   let out = try
     (match String.split_on_char ' ' (String.trim line) with
      | ["run"; k; cl; sc] -> do_run (kind_of k) (clients_of cl) (sched_of sc)
+     | ["wb"; k; cl; sc] -> do_wb (kind_of k) (clients_of cl) (sched_of sc)
      | ["explore"; k; d; cl] ->
        (match M.explore the_prog (kind_of k) (clients_of cl) (nat_of_int (int_of_string d)) with
         | None -> "none"
